@@ -455,7 +455,9 @@ func (g *IG) threadReturns() {
 			feasible := -1
 			okOne := true
 			for _, rn := range rets {
-				reach := g.Reach(g.Succ[rn], nil, nil)
+				// (not through the call itself: in a later loop iteration the helper
+				// runs again and the component is a new value)
+				reach := g.Reach(g.Succ[rn], nil, func(k int) bool { return k == sp.call })
 				for _, use := range *ex.Referrers() {
 					un, inGraph := g.Idx[use]
 					if !inGraph {
